@@ -53,7 +53,8 @@ PRED_KIND = {
 
 class Ren(object):
     """actual local name -> canonical name.  Keys of findings (construct=) and details are written with the
-    canonical names, so that they do not depend on how the analysed code happens to name its locals: the names
+    canonical names and in the canonical spelling of A.norm_src (`0 == n` reads `n == 0`, `x = x + 1` reads `x += 1`),
+    so that they do not depend on how the analysed code happens to name its locals or spell a comparison: the names
     the rules derive structurally get their documented name (seq_type, active_seqs, ...), every other
     non-parameter local of *fn* is numbered in the order of its first binding (L1, L2, ...)."""
 
@@ -86,7 +87,7 @@ class Ren(object):
     def src(self, node):
         hit = self._cache.get(id(node))
         if hit is None or hit[0] is not node:
-            hit = (node, A.src_with(node, self.map))
+            hit = (node, A.norm_src(node, self.map))
             self._cache[id(node)] = hit
         return hit[1]
 
@@ -95,7 +96,7 @@ class Ren(object):
         return s if len(s) <= n else s[: n - 3] + "..."
 
     def lits(self, p):
-        """p.literal_srcs() with canonical names."""
+        """p.literal_srcs() with canonical names, in canonical spelling."""
         out = []
         for t, pol in p.literals():
             s = self.src(t)
@@ -105,13 +106,67 @@ class Ren(object):
         return out
 
     def describe(self, p, limit=8):
-        """p.describe() with canonical names."""
+        """p.describe() with canonical names, in canonical spelling."""
         conds = self.lits(p)
         excs = [A.short(e[1].type, 40) if e[1].type is not None else "BaseException" for e in p.ev if e[0] == "exc"]
         s = " and ".join(conds[-limit:]) if conds else "(unconditional)"
         if excs:
             s += " [in handler of %s]" % ", ".join(excs)
         return s
+
+
+def nlits(p):
+    """p.literal_srcs() in the canonical spelling of A.norm_src (orientation of comparisons does not matter)."""
+    return K.lit_srcs(p, None, norm=True)
+
+
+def step_of(st, name):
+    """How statement *st* changes the integer local *name*: None -- it does not store it; an int -- it adds that
+    constant (`name += c`, `name -= c`, `name = name + c`, `name = c + name`, ...); '?' -- it stores something else."""
+    aug = A.as_augassign(st) if isinstance(st, ast.AugAssign) else None
+    if aug is not None:
+        if A.src(aug[0]) != name:
+            return None
+        c = A.int_const(aug[2])
+        if c is not None and isinstance(aug[1], ast.Add):
+            return c
+        if c is not None and isinstance(aug[1], ast.Sub):
+            return -c
+        return "?"
+    if isinstance(st, ast.Assign) and any(name in A.target_names(t) for t in st.targets):
+        if len(st.targets) == 1 and isinstance(st.targets[0], ast.Name):
+            lin = K.linear(st.value)
+            if lin is not None and lin[0] == {name: 1}:
+                return lin[1]
+        return "?"
+    return None
+
+
+def steps_on(p, name):
+    return [d for d in (step_of(s, name) for s in p.stmts()) if d is not None]
+
+
+def deref(p, node):
+    """A Name read at the end of path *p* stands for the value of its last plain assignment on the path
+    (`_ret = f(...); return _ret`); anything else stands for itself."""
+    seen = 0
+    while isinstance(node, ast.Name) and seen < 5:
+        seen += 1
+        defs = [s for s in p.stmts() if isinstance(s, ast.Assign) and len(s.targets) == 1 and isinstance(s.targets[0], ast.Name)
+                and s.targets[0].id == node.id]
+        if not defs:
+            break
+        node = defs[-1].value
+    return node
+
+
+def fn_deref(fn, node):
+    """A Name that has exactly one plain definition in *fn* (and is not a parameter) stands for that definition."""
+    if isinstance(node, ast.Name) and node.id not in A.func_params(fn):
+        v = A.single_def(fn, node.id)
+        if v is not None:
+            return v
+    return node
 
 
 def is_empty_list(node):
@@ -313,11 +368,12 @@ def check_classifier(ctx):
     params = A.func_params(fn)
     seqp = params[0] if params else "seq"
     # the kind variable is the second member of the returned pair (<branch>, <kind>)
+    # (a returned local with one definition stands for that definition: `_ret = (seq, kind); return _ret`)
     all_rets = [r for r in A.walk_local(fn) if isinstance(r, ast.Return)]
-    kvars = {r.value.elts[1].id for r in all_rets if isinstance(r.value, ast.Tuple) and len(r.value.elts) == 2
-             and isinstance(r.value.elts[1], ast.Name)}
+    ret_vals = [fn_deref(fn, r.value) for r in all_rets]
+    kvars = {v.elts[1].id for v in ret_vals if isinstance(v, ast.Tuple) and len(v.elts) == 2 and isinstance(v.elts[1], ast.Name)}
     if not ctx.require(len(kvars) == 1 and len(all_rets) >= 1 and all(
-            isinstance(r.value, ast.Tuple) and len(r.value.elts) == 2 and isinstance(r.value.elts[1], ast.Name) for r in all_rets),
+            isinstance(v, ast.Tuple) and len(v.elts) == 2 and isinstance(v.elts[1], ast.Name) for v in ret_vals),
             "C03-a", fn, "_get_seq_with_type does not return a pair (branch, kind variable) at every return"):
         return None
     kvar = kvars.pop()
@@ -369,7 +425,7 @@ def check_classifier(ctx):
             kind, "; ".join(A.short(c, 40) for c in convs), conv_want or "itself"), detail="conversion matches kind '%s'" % kind,
             construct="convert:%s:%s" % (kind, R.describe(p, 2)), path=p)
         rets = [s for s in p.stmts() if isinstance(s, ast.Return)]
-        if ctx.require(bool(rets) and A.src(rets[-1].value) == "(%s, %s)" % (seqp, kvar), "C03-a", fn, "_get_seq_with_type does not end with "
+        if ctx.require(bool(rets) and A.src(deref(p, rets[-1].value)) == "(%s, %s)" % (seqp, kvar), "C03-a", fn, "_get_seq_with_type does not end with "
                        "`return (seq, seq_type)` on path [%s]" % p.describe(3)):
             ctx.ok("C03-a", fn, "returns (seq, seq_type)")
     ctx.instances_floor("C03-a/classifier", n, 7, "normal paths of the classifier")
@@ -410,7 +466,7 @@ def check_classifier(ctx):
         ok = len(rets) == 1 and bool(A.func_params(pf))
         if ok:
             obj = A.func_params(pf)[0]
-            lits = [A.src(t).replace('"', "'") for t, pol in A.literals(rets[0].value, True) if pol]
+            lits = [A.src(t).replace('"', "'") for t, pol in A.literals(fn_deref(pf, rets[0].value), True) if pol]
             for c in caps:
                 ok = ok and "hasattr(%s, '%s')" % (obj, c) in lits and "callable(%s.%s)" % (obj, c) in lits
         ctx.check("C03-a", ok, pf, "%s does not require callable %s: an object without them would be driven as that kind" % (pred, "/".join(caps)),
@@ -534,22 +590,29 @@ def check_block_loop(ctx, KINDS):
         calls = calls_on(p, seqvar)
         attrs = [a for _, a, _ in calls]
         d1, d2 = dels_on(p, N.seqs), dels_on(p, N.types)
-        decs = [s for s in p.stmts() if isinstance(s, ast.AugAssign) and A.src(s.target) == N.count]
-        incs = [s for s in p.stmts() if isinstance(s, ast.AugAssign) and A.src(s.target) == N.ind]
+        # how the path changes the count and the index: constants added (`x -= 1`, `x = x - 1`, ...), '?' for other stores
+        decs, incs = steps_on(p, N.count), steps_on(p, N.ind)
+        odd = "?" in decs or "?" in incs
+        if odd:
+            ctx.unknown("C03-d", inner, "Split.run stores %s other than by adding a constant on path [%s]: the analyser cannot "
+                        "tell how often the index advances / the count drops" % (
+                            " and ".join(R.map.get(x, x) for x, st in ((N.count, decs), (N.ind, incs)) if "?" in st), p.describe(5)))
         dropped = bool(d1 or d2 or decs)
         stopped_lit = [pol for t, pol in p.literals() if A.src(t) in N.stopped]
         in_handler = any(e[0] == "exc" for e in p.ev)
         desc = p.describe(5)
         # C03-d pairing
-        if dropped:
+        if odd:
+            pass
+        elif dropped:
             ok = len(d1) == 1 and len(d2) == 1 and len(decs) == 1 and A.src(d1[0][1].slice) == N.ind and A.src(d2[0][1].slice) == N.ind \
-                and isinstance(decs[0].op, ast.Sub) and A.src(decs[0].value) == "1" and not incs and p.end == "continue"
+                and decs[0] == -1 and not incs and p.end == "continue"
             ctx.check("C03-d", ok, inner, "Split.run drops a branch inconsistently on path [%s]: del active_seqs[ind] x%d, del "
                       "active_seq_types[ind] x%d, n_of_active_seqs -= 1 x%d, ind advanced x%d, ends with %s -- the two lists (branch, "
                       "kind) and the count must change together and ind must stay" % (desc, len(d1), len(d2), len(decs), len(incs), p.end),
                       detail="drop path [%s]: both lists, count, ind kept" % R.describe(p, 3), construct="drop:%s" % R.describe(p, 4), path=p)
         else:
-            ok = len(incs) == 1 and isinstance(incs[0].op, ast.Add) and A.src(incs[0].value) == "1" and p.end in ("fall", "continue")
+            ok = incs == [1] and p.end in ("fall", "continue")
             ctx.check("C03-d", ok, inner, "Split.run does not advance ind exactly once on the path [%s] that keeps the branch (%d "
                       "increments): a branch would be visited twice or skipped" % (desc, len(incs)),
                       detail="keep path [%s]: ind += 1 once" % R.describe(p, 3), construct="advance:%s" % R.describe(p, 4), path=p)
@@ -783,7 +846,7 @@ def check_final_pass(ctx, KINDS):
             continue
         calls = calls_on(p, fseq)
         attrs = [a for _, a, _ in calls]
-        lits = p.literal_srcs()
+        lits = nlits(p)
         guarded = N.empty in lits or any(isinstance(s, ast.Assert) and A.src(s.test) == N.empty for s in p.stmts())
         not_empty = "not " + N.empty in lits
         foreign = sorted(set(attrs) - CAPS[k])
@@ -834,8 +897,8 @@ def check_final_pass(ctx, KINDS):
                 continue
             for p in P.loop_body_paths(outer):
                 if p.has(st):
-                    lits = p.literal_srcs()
-                    okp = any(l in bufnames or l in ("len(%s) > 0" % b for b in bufnames) for l in lits)
+                    lits = nlits(p)
+                    okp = any(l in bufnames or l in ["len(%s) > 0" % b for b in bufnames] + ["len(%s) != 0" % b for b in bufnames] for l in lits)
                     ctx.check("C03-e", okp, st, "flow_was_empty is cleared on a path [%s] that did not find a non-empty block: an empty "
                               "flow would be taken for a non-empty one and the branches not invoked" % p.describe(3),
                               detail="flow_was_empty cleared only under a non-empty block", construct="flow-was-empty-clear", path=p)
@@ -847,7 +910,7 @@ def check_final_pass(ctx, KINDS):
         if p.end == "raise":
             continue
         bound = any(isinstance(s, ast.Assign) and A.src(s) == "self.run = self._empty_run" for s in p.stmts())
-        zero = "self._n_seq_types == 0" in p.literal_srcs()
+        zero = "self._n_seq_types == 0" in nlits(p)
         if zero:
             ok = bound
         elif bound:
